@@ -1,4 +1,4 @@
-use vlib::{core::*, eeprom_checks as ec};
+use vlib::{core::*, eeprom_checks as ec, sim_sii as ss};
 
 fn guard<C>(f: impl Fn(&C, &mut CaseInfo) -> Result<(), Fail>) -> impl Fn(&C, &mut CaseInfo) -> Result<(), Fail> {
     move |c, info| match catch(|| {
@@ -14,6 +14,25 @@ fn guard<C>(f: impl Fn(&C, &mut CaseInfo) -> Result<(), Fail>) -> impl Fn(&C, &m
     }
 }
 
+/// Like `guard`, but a panic inside /repo code is the property's failure.
+fn guard_repo<C>(f: impl Fn(&C, &mut CaseInfo) -> Result<(), Fail>) -> impl Fn(&C, &mut CaseInfo) -> Result<(), Fail> {
+    move |c, info| match catch(|| {
+        let mut i2 = CaseInfo::default();
+        let r = f(c, &mut i2);
+        (r, i2)
+    }) {
+        Ok((r, i2)) => {
+            *info = i2;
+            r
+        }
+        Err(p) => {
+            let site = panic_site(&p);
+
+            if is_repo_site(&site) { Err(Fail::new(format!("C14|panic|{site}"), p)) } else { Err(Fail::new(format!("harness-panic|{site}"), p)) }
+        }
+    }
+}
+
 fn main() {
     let args = parse_args();
 
@@ -23,7 +42,11 @@ fn main() {
         let kind = replay_kind(path);
         let mut info = CaseInfo::default();
 
-        if kind == "h4-write" {
+        if kind == "sii-device-path" {
+            let (_k, case): (String, ss::SiiDevCase) = load_replay(path);
+
+            finish_replay("C14", path, guard_repo(|c: &ss::SiiDevCase, i: &mut CaseInfo| ss::run_sii_dev(c, "C14", i))(&case, &mut info));
+        } else if kind == "h4-write" {
             let (_k, case): (String, ec::WriteCase) = load_replay(path);
 
             finish_replay("C14", path, guard(ec::run_write)(&case, &mut info));
@@ -41,7 +64,7 @@ fn main() {
     check.rule = ec::C14_RULE.to_string();
     check.assumptions = vec![
         "CRC-8 oracle is an independent bitwise implementation (poly 0x07, init 0xFF, no reflection)".into(),
-        "alias sweep and generic writes run through the verif-hooks facade over an in-memory provider; command-error retries and busy devices belong to the simulated SII interface".into(),
+        "alias sweep and generic writes run through the verif-hooks facade over an in-memory provider; command-error retries and busy devices are exercised by a second sub-run through the SII interface of a simulated device".into(),
     ];
 
     // Every alias value, in both tiers
@@ -75,5 +98,8 @@ fn main() {
     check.coverage("exhaustive", serde_json::json!(true));
 
     check.run_prop("h4-write", 16, tier.pick(2_000, 50_000), ec::write_case, guard(ec::run_write));
+    // alias writes and reads through the SII interface of a simulated device: command errors
+    // (0..25 per word, retry bound 20), busy polling, a device that stays busy
+    check.run_prop("sii-device-path", 16, tier.pick(300, 6_000), ss::sii_dev_case, guard_repo(|c: &ss::SiiDevCase, i: &mut CaseInfo| ss::run_sii_dev(c, "C14", i)));
     check.finish();
 }
